@@ -1468,6 +1468,9 @@ class Interp:
         if isinstance(a, Sym) or isinstance(b, Sym):
             if isinstance(a, (bool, type(None))) or isinstance(b, (bool, type(None))):
                 return False  # a symbolic int/str is never the singleton True/False/None
+            other = b if isinstance(a, Sym) else a
+            if not isinstance(other, (Sym, str, bytes, bytearray, int, float)):
+                return False  # a symbolic int/str/bytes denotes a value of that type: never identical to an object of another type (sentinels)
             raise Unreached('identity comparison on symbolic values')
         if isinstance(a, BoundMethod) and isinstance(b, BoundMethod):
             return a == b
